@@ -164,6 +164,11 @@ def gen_cases(tier, seed):
         cases.append({"id": "reload-%d" % k, "sig": ["reload", k], "kind": "reload", "k": k})
     for k in range(12 if tier == "quick" else 600):
         cases.append({"id": "mixed-%d" % k, "sig": ["mixed", k], "kind": "mixed", "k": k})
+    # the orders that matter most, whatever the seed: a source that was told not to look at validUntil, then each other kind of source with
+    # something expired in it (the document, or one entity)
+    for k2, (later, where) in enumerate(itertools.product(("remote", "local", "inline"), ("document", "entity"))):
+        cases.append({"id": "mixed-planned-%s-%s" % (later, where), "sig": ["mixed-planned", later, where], "kind": "mixed", "k": 1000 + k2,
+                      "plan": [("remote-novalidity", "future", None), (later, "past" if where == "document" else None, "past" if where == "entity" else None)]})
     for variant in ("valid", "valid-whole-document-reference", "tampered", "wrong-cert", "unsigned-with-cert", "signed-no-cert", "wrapped-root", "wrapped-root-signature-moved", "wrapped-root-genuine-in-extensions") + WRAP_MORE:
         for wrapped in (0, 1):
             cases.append({"id": "signed-%s-%s" % (variant, "entities" if wrapped else "entity"), "sig": ["signed", variant, wrapped], "kind": "signed",
@@ -282,11 +287,18 @@ def run_mixed(case, ctx, viol, counters, sigs):
     store = new_store()
     sources = []
     served_model = []
-    n = rng.randint(2, 4)
+    plan = case.get("plan")
+    n = len(plan) if plan else rng.randint(2, 4)
     for si in range(n):
         ids = rng.sample(POOL[:5], rng.randint(1, 3))
         src = {"entities": [gen_entity(rng, e, "m%d" % si) for e in ids], "wrapped": True, "valid_until": rng.choice([None, "future", "past"])}
         kind = rng.choice(["remote", "remote-novalidity", "local", "inline"])
+        if plan:
+            kind, src["valid_until"], ent_vu = plan[si]
+            for e_ in src["entities"]:
+                e_["valid_until"] = None
+            if ent_vu:
+                src["entities"][0]["valid_until"] = ent_vu
         xml = render(src, offsets=kind != "remote-novalidity")     # (a source loaded without validity checks still goes through schema validation)
         try:
             if kind.startswith("remote"):
